@@ -3,6 +3,8 @@ package c19
 
 import (
 	"encoding/json"
+	"strings"
+	"time"
 	"fmt"
 	"math/rand"
 	"os"
@@ -11,7 +13,13 @@ import (
 
 	"github.com/benoitkugler/gomacro/generator"
 
+	"github.com/benoitkugler/gomacro/analysis"
+
+	"verif/harness/internal/absprog"
 	"verif/harness/internal/core"
+	"verif/harness/internal/gens"
+	"verif/harness/internal/sqlprog"
+	"verif/harness/internal/synth"
 )
 
 type decl struct {
@@ -24,6 +32,73 @@ type obs struct {
 	Case   int    `json:"case"`
 	Input  []decl `json:"input"`
 	Output string `json:"output"`
+	// lists taken from a real generator: the distinct IDs in Go string order, and where the list comes from
+	Ids   []string `json:"ids,omitempty"`
+	Label string   `json:"label,omitempty"`
+}
+
+// item is a synthesised package whose generators' declaration lists are assembled too.
+type item struct {
+	ID     int               `json:"id"`
+	Files  map[string]string `json:"files"`
+	Source string            `json:"source"`
+}
+
+type realList struct {
+	Label string `json:"label"`
+	Decls []decl `json:"decls"`
+}
+
+type workIn struct {
+	Items []item `json:"items"`
+}
+
+type workOut struct {
+	Lists []realList `json:"lists"`
+	Note  string     `json:"note"`
+}
+
+// Worker loads the packages and returns the declaration lists every generator supplies for them.
+func Worker(args []string) {
+	core.WorkerIO(args, func(in workIn, dir string) workOut {
+		var out workOut
+		mod, err := synth.NewModule(dir)
+		if err != nil {
+			panic(err)
+		}
+		var rels []string
+		for _, it := range in.Items {
+			mod.Write(it.Files)
+			rels = append(rels, it.Source)
+		}
+		pkgs, root, err := mod.Load(rels)
+		if err != nil {
+			out.Note = "load failed: " + err.Error()
+			return out
+		}
+		for i, it := range in.Items {
+			var ana *analysis.Analysis
+			if class, _ := synth.Guard(func() { ana = analysis.NewAnalysisFromFile(pkgs[i], mod.Abs(rels[i])) }); class != synth.OutOK {
+				continue
+			}
+			for _, tgt := range gens.Targets {
+				lists, class, _ := gens.Decls(tgt, ana, root)
+				if class != synth.OutOK {
+					continue
+				}
+				for _, file := range synth.SortedKeys(lists) {
+					rl := realList{Label: fmt.Sprintf("package %d, target %s %s", it.ID, tgt, file)}
+					for _, d := range lists[file] {
+						rl.Decls = append(rl.Decls, decl{ID: d.ID, Content: d.Content, Prio: d.Priority})
+					}
+					if len(rl.Decls) > 0 {
+						out.Lists = append(out.Lists, rl)
+					}
+				}
+			}
+		}
+		return out
+	})
 }
 
 func call(in []decl) string {
@@ -139,12 +214,81 @@ func Run(c *core.Ctx, replay string) (*core.Result, error) {
 		}
 	}
 
+	// 2b. the declaration lists the real generators supply (arbitrary IDs: their Go string order travels with the
+	// record), as supplied, reversed and shuffled: the assembly must not depend on the order, and equal IDs carry
+	// equal content - which is what makes a generator's text independent of its traversal order
+	type realIn struct {
+		ids   []string
+		label string
+	}
+	realOf := map[int]realIn{}
+	nReal := 0
+	if replay == "" {
+		rng := rand.New(rand.NewSource(c.Seed + 19))
+		var items []item
+		nProg := 3
+		if c.Thorough() {
+			nProg = 25
+		}
+		for k := 0; k < nProg; k++ {
+			o := absprog.Full()
+			o.NStructs = 2 + rng.Intn(3)
+			p := absprog.Random(k+1, rng, o)
+			items = append(items, item{ID: k + 1, Files: absprog.Render(p, synth.ModRoot), Source: fmt.Sprintf("p%d/defs.go", k+1)})
+		}
+		m := sqlprog.DirectiveRich(len(items) + 1)
+		items = append(items, item{ID: m.ID, Files: sqlprog.Render(m), Source: sqlprog.Dir(m.ID) + "/models.go"})
+		m2 := sqlprog.TwinColumns(len(items) + 1)
+		items = append(items, item{ID: m2.ID, Files: sqlprog.Render(m2), Source: sqlprog.Dir(m2.ID) + "/models.go"})
+		var wout workOut
+		log, err := c.RunSelfWorker("c19", workIn{Items: items}, &wout, 15*time.Minute)
+		if err != nil {
+			return nil, core.Inconcl("c19 worker: %v\n%s", err, core.Tail(log, 20))
+		}
+		if wout.Note != "" || len(wout.Lists) == 0 {
+			return nil, core.Inconcl("c19 worker: no declaration list from the generators (%s)", wout.Note)
+		}
+		for _, rl := range wout.Lists {
+			seen := map[string]bool{}
+			var ids []string
+			for _, d := range rl.Decls {
+				if !seen[d.ID] {
+					seen[d.ID] = true
+					ids = append(ids, d.ID)
+				}
+			}
+			sort.Strings(ids)
+			variants := [][]decl{rl.Decls}
+			rev := make([]decl, len(rl.Decls))
+			for i, d := range rl.Decls {
+				rev[len(rev)-1-i] = d
+			}
+			variants = append(variants, rev)
+			for s := 0; s < 2; s++ {
+				p := append([]decl(nil), rl.Decls...)
+				rng.Shuffle(len(p), func(i, j int) { p[i], p[j] = p[j], p[i] })
+				variants = append(variants, p)
+			}
+			for _, v := range variants {
+				realOf[len(inputs)] = realIn{ids, rl.Label}
+				inputs = append(inputs, v)
+				nReal++
+			}
+		}
+	}
+
 	// 3. the real code
 	recsOut := make([]any, 0, len(inputs))
 	distinct := map[string]bool{}
 	nontrivial := 0
 	for i, in := range inputs {
 		o := obs{Case: i + 1, Input: in, Output: call(in)}
+		if r, ok := realOf[i]; ok {
+			o.Ids, o.Label = r.ids, r.label
+			if o.Ids == nil {
+				o.Ids = []string{}
+			}
+		}
 		if o.Input == nil {
 			o.Input = []decl{}
 		}
@@ -195,14 +339,22 @@ func Run(c *core.Ctx, replay string) (*core.Result, error) {
 			res.Violations = append(res.Violations, core.Violation{Key: "WriteDeclarations:nondeterministic", What: "two calls on the same list returned different texts", Replay: o})
 			continue
 		}
+		if o.Label != "" {
+			key := why
+			if j := strings.Index(key, ": "); j > 0 {
+				key = key[:j]
+			}
+			res.Violations = append(res.Violations, core.Violation{Key: "generator lists:" + key, What: fmt.Sprintf("%s (%s, %d declarations)", why, o.Label, len(o.Input)), Replay: o})
+			continue
+		}
 		res.Violations = append(res.Violations, core.Violation{Key: "WriteDeclarations:" + why, What: fmt.Sprintf("%s; input=%v output=%q", why, o.Input, o.Output), Replay: o})
 	}
 	res.Evaluations = len(inputs)
 	res.TracesVsImpl = len(inputs)
 	res.Nontrivial = nontrivial
 	res.Exhaustive = false
-	res.Rule = fmt.Sprintf("all %d lists of Decls_%s.cfg (length<=MaxLen over 3 IDs x 2 contents x 2 priorities, closed under permutation) exported by TLC, plus seeded random lists of length<=40 over the %d-ID universe with 3 shuffles each; non-trivial = has a duplicate ID, or both priorities, or IDs supplied out of order", nEnumerated, c.Tier, len(idorder))
-	res.Extra = map[string]any{"enumerated_by_tlc": nEnumerated, "random_and_shuffled": len(inputs) - nEnumerated, "design_cfg": cfg}
+	res.Rule = fmt.Sprintf("all %d lists of Decls_%s.cfg (length<=MaxLen over 3 IDs x 2 contents x 2 priorities, closed under permutation) exported by TLC, plus seeded random lists of length<=40 over the %d-ID universe with 3 shuffles each, plus the declaration lists every real generator supplies for synthesised packages (as supplied, reversed, shuffled twice); non-trivial = has a duplicate ID, or both priorities, or IDs supplied out of order", nEnumerated, c.Tier, len(idorder))
+	res.Extra = map[string]any{"enumerated_by_tlc": nEnumerated, "random_and_shuffled": len(inputs) - nEnumerated - nReal, "real_generator_lists_and_permutations": nReal, "design_cfg": cfg}
 	_ = os.Remove(trace)
 	return res, nil
 }
